@@ -17,6 +17,7 @@ import re
 import subprocess
 import time
 
+import shutil
 import vlib
 
 PROPERTIES = ["C01", "C02", "C03", "C04", "C05", "C06", "C07", "C08", "C16"]
@@ -74,10 +75,13 @@ ESCROW_FAMILIES = {
               DepositChoices=[0, 1, 3, 4], AmountChoices=[2], RateChoices=[1, 2], PayOSeqs=[1], Gaps=[1, 2], MaxHeight=5, InitCoins=6),
     "E3": dict(Tenants=["t1"], Providers=["p1", "p2", "p3"], Auditors=[], DSeqs=[1], GSeqs=[1], OSeqs=[1], MinDeposit=0, BidMinDeposit=0,
                DepositChoices=[0, 2, 5, 7], AmountChoices=[1, 3], RateChoices=[1, 2, 3], PayOSeqs=[1], Gaps=[1, 2, 3], MaxHeight=7, InitCoins=12),
-    # three concurrent payees, small (quick tier): order-dependent even distribution of the overdraft remainder; a second
-    # (bystander) account whose coins sit in the same module account, so that an overpayment has something to take
+    # three concurrent payees, small (quick tier): order-dependent even distribution of the overdraft remainder
     "E3q": dict(Tenants=["t1"], Providers=["p1", "p2", "p3"], Auditors=[], DSeqs=[1], GSeqs=[1], OSeqs=[1], MinDeposit=0, BidMinDeposit=0,
-                DepositChoices=[5], AmountChoices=[], RateChoices=[1, 2], PayOSeqs=[1], Gaps=[1, 2], MaxHeight=3, InitCoins=8,
+                DepositChoices=[5], AmountChoices=[], RateChoices=[1, 2], PayOSeqs=[1], Gaps=[1, 2], MaxHeight=3, InitCoins=5),
+    # the same with equal rates only and a second (bystander) account whose coins sit in the same module account, so that
+    # an overpayment has something to take
+    "E3b": dict(Tenants=["t1"], Providers=["p1", "p2", "p3"], Auditors=[], DSeqs=[1], GSeqs=[1], OSeqs=[1], MinDeposit=0, BidMinDeposit=0,
+                DepositChoices=[5], AmountChoices=[], RateChoices=[1], PayOSeqs=[1], Gaps=[1, 2], MaxHeight=3, InitCoins=8,
                 BystanderDeposits=[3]),
     # simulation only: larger amounts, two payment slots per provider
     "EL": dict(Tenants=["t1"], Providers=["p1", "p2", "p3"], Auditors=[], DSeqs=[1], GSeqs=[1], OSeqs=[1, 2], MinDeposit=0, BidMinDeposit=0,
@@ -87,14 +91,20 @@ ESCROW_FAMILIES = {
 FAMILIES.update(ESCROW_FAMILIES)
 
 # which families matter for which property (quick tier); thorough runs all of them
-QUICK = {"C01": ["SQ1", "SQ3", "A", "E", "E3q"], "C02": ["E", "E3q", "A", "S"], "C03": ["SQ1", "SQ2", "SQ3", "S", "E"],
+QUICK = {"C01": ["SQ1", "SQ3", "A", "E", "E3b"], "C02": ["E", "E3q", "A", "S"], "C03": ["SQ1", "SQ2", "SQ3", "S", "E"],
          "C04": ["SQ1", "SQ2", "SQ3", "SQ5", "S"], "C05": ["SQ1", "SQ2", "SQ3", "SQ5", "S"], "C06": ["B", "R", "SQ2", "SQ3"],
          "C07": ["R", "RX", "E", "A"], "C08": ["RX", "RA", "R"], "C16": ["SQ1", "SQ2", "SQ3", "R"]}
+# every property's quick tier also sees every small exhaustive world (a change often shows only in a world built for
+# another property: mirrored coordinates, a bystander account, two leases of one provider)
+SMALL = ["SQ3", "SQ5", "RX", "RA", "E3b"]
+for _p in QUICK:
+    QUICK[_p] = QUICK[_p] + [f for f in SMALL if f not in QUICK[_p]]
 THOROUGH = {"C01": ["SX", "E", "EL", "S", "A", "B"], "C02": ["SX", "E", "E3q", "EL", "A", "S"], "C03": ["SX", "E", "EL", "S", "A"],
             "C04": ["SX", "SQ3", "SQ5", "S", "A", "B"], "C05": ["SX", "SQ3", "SQ5", "S", "A", "B"], "C06": ["SX", "RX", "E", "B", "R", "S"],
             "C07": ["SX", "RX", "R", "S", "A"], "C08": ["RX", "RA", "SX", "R"], "C16": ["SX", "RX", "SQ3", "S", "A", "R", "B"]}
-EXHAUSTIVE = {"SX", "SQ1", "SQ2", "SQ3", "SQ5", "RX", "RA", "E", "E3", "E3q"}
-PAR = max(2, min(8, vlib.NCPU // 2))     # concurrent harness processes / J3 JVMs
+EXHAUSTIVE = {"SX", "SQ1", "SQ2", "SQ3", "SQ5", "RX", "RA", "E", "E3", "E3q", "E3b"}
+PAR = max(2, min(8, vlib.NCPU // 2))     # concurrent harness processes / J3 JVMs per family
+FAMILY_PAR = 2                           # families in flight at a time
 ROUNDTRIPS = 3        # per harness shard: states at which the genesis export/import round trip is recorded
 NODE_CAP_QUICK = 80000
 NODE_CAP_THOROUGH = 250000
@@ -362,7 +372,11 @@ def run(pid, tier, seed, replay):
     distinct = set()
     violations, drifts = [], []
     selft = None
-    for fam, sim, num, depth, expand in plans:
+    reps = 3 if pid == "C07" else 1      # repetitions on sibling copies of the pre-state only matter for C07
+
+    def family(plan):
+        fam, sim, num, depth, expand = plan
+        out = dict(fam=fam, sim=sim, violations=[], drifts=[], samples=[], distinct=set(), traces=0, selft=None)
         r1, nodes, alpha = j1(fam, sim, seed, num, depth, timeout=3000)
         exported = len(nodes)
         cap = NODE_CAP_THOROUGH if thorough else NODE_CAP_QUICK
@@ -373,7 +387,7 @@ def run(pid, tier, seed, replay):
         work = vlib.scratch("chain-%s-" % fam)
         est = len(nodes) * 2 + min(expand or len(nodes), len(nodes)) * len(alpha)
         shards = max(2, est // 6000 + 1)
-        outs = run_harness(vh, fam, work, nodes, alpha, expand, seed, shards, reps=3 if pid == "C07" else 2)
+        outs = run_harness(vh, fam, work, nodes, alpha, expand, seed, shards, reps=reps)
         nsteps = sum(o[1]["steps"] for o in outs)
         with cf.ThreadPoolExecutor(max_workers=min(PAR, shards)) as ex:
             res = list(ex.map(lambda o: j3(fam, o[0], [pid, "CONF"]), outs))
@@ -381,30 +395,47 @@ def run(pid, tier, seed, replay):
             lines = None
             if r3.distinct != sum(1 for _ in open(tr)):
                 raise vlib.Inconclusive("J3 consumed %d of the lines of %s" % (r3.distinct, tr))
-            cov["traces_validated_against_impl"] += 1
-            if fails or drift or len(cov["samples"]) < 3:
+            out["traces"] += 1
+            if fails or drift or len(out["samples"]) < 1:
                 lines = load_trace(tr)
             for (p, name, l) in fails:
                 st = lines[l - 1]
                 sig = "%s/%s/%s" % (name, st["act"]["act"], "ok" if st["ok"] else "rejected")
                 script = script_of(lines, l)
-                violations.append(vlib.Violation(pid, sig, "family %s line %d\nscript: %s\nstep: %s" % (
+                out["violations"].append(vlib.Violation(pid, sig, "family %s line %d\nscript: %s\nstep: %s" % (
                     fam, l, json.dumps(script), json.dumps({k: st[k] for k in ("act", "ok", "err", "events", "signers", "genesisOK", "genesisErr", "digests")})),
                     {"script.json": json.dumps({"family": fam, "script": script}), "step.json": json.dumps(st, indent=1)}))
             for (l, txt) in drift:
-                drifts.append("family %s: %s script=%s" % (fam, txt, json.dumps(script_of(lines, l))))
-            if lines and len(cov["samples"]) < 3:
+                out["drifts"].append("family %s: %s script=%s" % (fam, txt, json.dumps(script_of(lines, l))))
+            if lines and len(out["samples"]) < 1:
                 deep = max(lines, key=lambda x: x["id"] if x["ok"] else 0)
-                cov["samples"].append({"family": fam, "script": script_of(lines, deep["id"])[-12:]})
+                out["samples"].append({"family": fam, "script": script_of(lines, deep["id"])[-12:]})
             # distinct (pre-state, action) pairs
             h = {}
             for ln in open(tr):
                 o = json.loads(ln)
                 h[o["id"]] = hashlib.md5(json.dumps(o["state"], sort_keys=True).encode()).hexdigest()[:12]
                 if o["parent"]:
-                    distinct.add((fam, h[o["parent"]], json.dumps(o["act"], sort_keys=True)))
-            if selft is None:
-                selft = selftest(fam, tr, pid)
+                    out["distinct"].add((fam, h[o["parent"]], json.dumps(o["act"], sort_keys=True)))
+            if out["selft"] is None and fam == plans[0][0]:
+                out["selft"] = selftest(fam, tr, pid)
+        out.update(exported=exported, r1=r1, nsteps=nsteps, replayed=len(nodes), alphabet=len(alpha))
+        shutil.rmtree(work, ignore_errors=True)
+        return out
+
+    # two families at a time: the single-threaded stretches of one (TLC export, J3 start-up) overlap the other's harness
+    with cf.ThreadPoolExecutor(max_workers=1 if thorough else FAMILY_PAR) as fex:
+        results = list(fex.map(family, plans))
+    for out in results:
+        fam, sim, r1, exported = out["fam"], out["sim"], out["r1"], out["exported"]
+        violations += out["violations"]
+        drifts += out["drifts"]
+        distinct |= out["distinct"]
+        cov["traces_validated_against_impl"] += out["traces"]
+        if len(cov["samples"]) < 3:
+            cov["samples"] += out["samples"]
+        if selft is None:
+            selft = out["selft"]
         if sim:
             cov["states"] += exported
             cov["transitions"] += exported
@@ -412,10 +443,10 @@ def run(pid, tier, seed, replay):
             cov["states"] += r1.distinct
             cov["transitions"] += r1.generated
             cov["exhaustive"] = True
-        cov["evaluations"] += nsteps
+        cov["evaluations"] += out["nsteps"]
         cov["configs"].append({"family": fam, "mode": "simulate" if sim else "exhaustive", "model_states": r1.distinct or exported,
-                               "model_transitions": r1.generated or exported, "exported_states": exported, "replayed_states": len(nodes),
-                               "alphabet": len(alpha), "impl_steps": nsteps, "j1_wall_s": round(r1.wall_s, 1)})
+                               "model_transitions": r1.generated or exported, "exported_states": exported, "replayed_states": out["replayed"],
+                               "alphabet": out["alphabet"], "impl_steps": out["nsteps"], "j1_wall_s": round(r1.wall_s, 1)})
     if pid == "C16":
         codec_stage(vh, cov, violations)
     cov["drift_steps"] = len(drifts)
